@@ -308,6 +308,9 @@ func dischargeOne(o *Obligation, cfg SolverCfg) {
 		if limit > 2 && !cfg.Thorough {
 			limit = 2
 		}
+		if limit > 6 {
+			limit = 6
+		}
 	}
 	// quantifier-free looking goals are almost always decided by z3 at once: try it alone first, briefly
 	if !o.Vacuity && !strings.Contains(o.Goal, "forall") && !strings.Contains(o.Goal, "exists") {
@@ -469,8 +472,8 @@ func dischargeAll(obls []*Obligation, cfg SolverCfg) {
 			undecided = append(undecided, o)
 		}
 	}
-	if len(undecided) == 0 || len(undecided) > 12 {
-		return
+	if len(undecided) == 0 || len(undecided) > 12 || cfg.Thorough {
+		return // (the thorough tier already runs with a long limit)
 	}
 	sem2 := make(chan struct{}, 6)
 	for _, o := range undecided {
